@@ -15,6 +15,9 @@ import (
 
 type verifExhausted struct{}
 type verifDiverged struct{ why string }
+
+// verifCFault: the C code under test crashed, aborted or tripped the sanitizer (C15).
+type verifCFault struct{ why string }
 type verifAssumeFailed struct{}
 type verifAssertFailed struct{ label string }
 
